@@ -70,8 +70,8 @@ class C06(object):
                 vars_ = list(range(n))
                 rng.shuffle(vars_)
                 k = rng.randint(1, n)
-                c['rvs'] = sorted(vars_[:k])
-                c['crvs'] = sorted(vars_[k:][:rng.randint(0, n - k)])
+                c['rvs'] = vars_[:k] if rng.random() < 0.5 else sorted(vars_[:k])          # listed in any order
+                c['crvs'] = vars_[k:][:rng.randint(0, n - k)]
             if kind == 'lautum':
                 # any two disjoint groups, in any order (lautum information is symmetric in its groups)
                 vs = list(range(n))
